@@ -433,11 +433,68 @@ pub fn c03_at_k(tinf: &[Event], k: usize, outk: &Outcome) -> Result<(), Viol> {
 }
 
 /// arbitrary scripts: right after any Break answer, the next event (if any) hands that very error over
-pub fn c03_random(out: &Outcome) -> Result<(), Viol> {
+/// is the conversion probe `id` a FIELD-level try_from of the struct / variant that owns `loc`
+/// (as opposed to the container-level try_from of the type found at `loc`)
+fn field_level_try_from(ty: &Ty, payload: &PV, loc: &[Step], id: u32) -> bool {
+    let Some((Step::Key(k), parent_loc)) = loc.split_last() else { return false };
+    let fields: Vec<FieldTy> = match type_at(ty, parent_loc, payload) {
+        Some(Ty::Struct(st)) => st.fields.clone(),
+        Some(Ty::TaggedEnum(en)) => {
+            let at = payload.resolve_all(parent_loc);
+            let tag = at.first().and_then(|v| match v {
+                PV::Map(m) => m.iter().find(|(kk, _)| *kk == en.tag).and_then(|(_, v)| if let PV::Str(s) = v { Some(s.clone()) } else { None }),
+                _ => None,
+            });
+            match tag.and_then(|t| en.variants.iter().find(|v| v.key == t).cloned()) {
+                Some(v) => v.fields.unwrap_or_default(),
+                None => return false,
+            }
+        }
+        _ => return false,
+    };
+    fields.iter().any(|f| !f.skip && f.key == *k && f.conv == Conv::TryFrom(id))
+}
+
+pub fn c03_random(e: &Entry, payload: &PV, src: Src, out: &Outcome) -> Result<(), Viol> {
     if out.panicked.is_some() {
         return Ok(());
     }
+    let canon;
+    let payload = if src == Src::Json {
+        canon = payload.canonical().unwrap_or_else(|| payload.clone());
+        &canon
+    } else {
+        payload
+    };
     let t = &out.trace;
+    // a field-level conversion failure is reported by the struct's own code: a Break answer makes the
+    // STRUCT return at once - it passes the error to its accumulator (one hand-over at the same place,
+    // whatever that answers) and nothing further inside it is examined
+    for (i, ev) in t.iter().enumerate() {
+        if let Event::Report { kind: RKind::Foreign(crate::trace::ProbeData::Failed { id, role }), cont: false, loc, .. } = ev {
+            if *role == "try_from" && field_level_try_from(&e.ty, payload, loc, *id) {
+                if let Some(Event::HandOver { other_built_by, loc: l2, .. }) = t.get(i + 1) {
+                    if *other_built_by == i && l2 == loc {
+                        match t.get(i + 2) {
+                            None => {}
+                            Some(Event::HandOver { other_built_by: b2, .. }) if *b2 == i + 1 => {}
+                            Some(other) => {
+                                return Err((
+                                    "C03|container-continued-after-stop-on-its-own-report".into(),
+                                    format!(
+                                        "[{}] answered Break: the struct that made this report must return at once (after [{}]), but then: [{}]",
+                                        show_event(ev),
+                                        show_event(&t[i + 1]),
+                                        show_event(other)
+                                    ),
+                                ));
+                            }
+                        }
+                    }
+                }
+            }
+        }
+    }
     for (i, ev) in t.iter().enumerate() {
         let (cont, loc) = match ev {
             Event::Report { cont, loc, .. } | Event::HandOver { cont, loc, .. } => (*cont, loc),
